@@ -51,6 +51,52 @@ def has_deep_lookup(fns):
         any(in_body(n["body"]) for n in main["nested"].values())
 
 
+FIRST_CLASS_SRC = '''from kirin.dialects import ilist
+from bloqade.shuttle import gate, spec
+from bloqade.shuttle.prelude import move
+from harness.props import c06 as _C06
+
+@move
+def leafm(i: int):
+    return spec.get_int_constant(constant_id="n2") + i
+
+@move
+def plain(n: int):
+    return ilist.map(leafm, ilist.range(n))
+
+@move(arch_spec=_C06.SPEC_SLOT)
+def specialised(n: int):
+    return ilist.map(leafm, ilist.range(n))
+
+@move
+def plain_direct(n: int):
+    return leafm(n)
+
+@move(arch_spec=_C06.SPEC_SLOT)
+def specialised_direct(n: int):
+    return leafm(n)
+'''
+
+
+def first_class_stream(ctx, spec):
+    """a spec-reading subroutine used as a first-class value (ilist.map): real code against real code"""
+    global SPEC_SLOT
+    SPEC_SLOT = spec
+    mod = T.load_source(FIRST_CLASS_SRC, "c06fc")
+    for n in (0, 1, 3):
+        for a, b, what in ((mod.plain, mod.specialised, "passed to ilist.map"), (mod.plain_direct, mod.specialised_direct, "called directly")):
+            ref = EV.run_with_events(a, spec, (n,))
+            got = EV.run_with_events(b, spec, (n,), plain=True)
+            r1 = "err" if ref.error else f"ok {list(ref.result) if hasattr(ref.result, '__iter__') else ref.result}"
+            r2 = "err" if got.error else f"ok {list(got.result) if hasattr(got.result, '__iter__') else got.result}"
+            ctx.count("first_class_runs")
+            if r1 != r2:
+                ctx.fail({"source": FIRST_CLASS_SRC, "kernel": b.sym_name, "args": [n]},
+                         f"a spec-reading subroutine {what}: specialised kernel run without a spec gives {r2}, the unspecialised "
+                         f"kernel against the spec gives {r1}",
+                         key="F22-first-class-method-not-injected" if what == "passed to ilist.map" and r2 == "err" else None)
+
+
 def run(ctx):
     global SPEC_SLOT, SPEC_SLOT2
     feat = {"unknown": 0.05, "assert": 0.0, "wrong_kind": 0.05, "devfn_param": 0.2, "alias_subs": 0.3}
@@ -120,6 +166,7 @@ def run(ctx):
             ctx.count("runs_ok" if ref.startswith("ok") else "runs_err")
     if ctx.counts.get("compile_fail", 0) > 0.3 * n_prog:
         raise HarnessFault("generator degenerate: >30% of generated programs do not compile")
+    first_class_stream(ctx, sp_list[0])
     m_spec = ctx.driver(lines_spec)
     m_inj = ctx.driver(lines_inj)
     ctx.traces_validated = len(rows)
